@@ -240,6 +240,7 @@ class Interp:
         self.max_unroll = 200
         self.active: List[str] = []
         self.havoc_log: List[str] = []
+        self.tainted: Dict[int, Tuple[Any, str]] = {}  # python dicts whose content is unknown after a loop cut (see havoc_loop)
         self.frames: List[Frame] = []  # frames of the interpreted calls in progress (innermost last); stubs may inspect them
         try:
             ctx.interp = self
@@ -287,6 +288,17 @@ class Interp:
 
     def call(self, fn: Any, args: List[Any], kwargs: Dict[str, Any], node: Any = None) -> Any:
         reg = self.registry
+        if self.tainted:
+            recv_t = getattr(fn, '__self__', None)
+            if isinstance(recv_t, dict) and id(recv_t) in self.tainted and self.tainted[id(recv_t)][0] is recv_t:
+                nm = getattr(fn, '__name__', '')
+                if nm == 'clear':
+                    del self.tainted[id(recv_t)]  # known again: empty
+                elif nm not in ('update', '__setitem__'):
+                    self.check_known(recv_t, 'call of .%s()' % nm)
+            for a_ in list(args) + list(kwargs.values()):
+                if isinstance(a_, dict):
+                    self.check_known(a_, 'passing it to a call')
         if isinstance(fn, BoundMethod):
             return self.call(fn.func, [fn.self_obj] + args, kwargs, node)
         if isinstance(fn, Closure):
@@ -923,7 +935,11 @@ class Interp:
                 o.arr = core.SDict.fresh(ctx, 'hv_' + re.sub(r'\W', '_', base)).arr
                 self.havoc_log.append('%s %s: mapping %s (in place)' % (key, label, base))
             elif isinstance(o, dict):
-                raise Unreached('python dict %r is written inside cut loop %s of %s: the loop contract must summarise it (no_auto) or it must be a symbolic mapping' % (base, label, key))
+                # a concrete python dict cannot be summarised in place: its content is UNKNOWN from here on.  The object is kept (identity and
+                # aliases matter to ownership clauses) but marked: the subject may write to it or clear() it (which makes it known again: empty);
+                # any READ of it while marked makes the function unreached -- never a verdict drawn from stale content.
+                self.tainted[id(o)] = (o, 'python dict %r written inside cut loop %s of %s' % (base, label, key))
+                self.havoc_log.append('%s %s: python dict %s marked content-unknown' % (key, label, base))
         for st in list(ctx.stubs):
             h = getattr(st, 'havoc', None)
             if h is not None:
@@ -1014,7 +1030,14 @@ class Interp:
                 end_hook()  # stub iterables with side effects at exhaustion (e.g. a generator's code after its last yield)
             self.exec_block(s.orelse, f)
 
+    def check_known(self, o: Any, what: str) -> None:
+        """Refuse to read a python dict whose content became unknown at a loop cut."""
+        t = self.tainted.get(id(o)) if self.tainted else None
+        if t is not None and t[0] is o:
+            raise Unreached('%s of a %s (content unknown after the cut; the loop contract must summarise it, or it must be a symbolic mapping)' % (what, t[1]))
+
     def iterate(self, it: Any) -> Any:
+        self.check_known(it, 'iteration')
         if isinstance(it, GenResult):
             return list(it.items)
         if isinstance(it, (list, tuple, set, frozenset, dict, range, str, bytes)) or isinstance(it, (types.GeneratorType, map, zip, enumerate, reversed)):
@@ -1215,6 +1238,7 @@ class Interp:
         delattr(o, name)
 
     def getitem(self, o: Any, k: Any) -> Any:
+        self.check_known(o, 'item read')
         if hasattr(o, '__pyvc_getitem__'):
             return o.__pyvc_getitem__(k)
         if isinstance(o, Sym):
@@ -1287,6 +1311,8 @@ class Interp:
 
     # ------------------------------------------------------------------ expressions
     def truth(self, v: Any, label: str = 'br') -> bool:
+        if self.tainted:
+            self.check_known(v, 'truth test')
         if isinstance(v, SBool):
             return self.ctx.branch(v.t, label)
         if isinstance(v, SInt):
@@ -1599,6 +1625,7 @@ class Interp:
         return a is b
 
     def contains(self, container: Any, item: Any) -> Any:
+        self.check_known(container, 'membership test')
         if hasattr(container, '__pyvc_contains__'):
             return container.__pyvc_contains__(item)
         if isinstance(container, range) and isinstance(item, SInt):
